@@ -68,7 +68,11 @@ func protoRecv(recv *pb.Recv) ([]byte, error) {
 		if r.Physical == nil {
 			return nil, status.Error(codes.InvalidArgument, "The field recv is required.")
 		}
-		return json.Marshal(&receiver.Recv{Type: r.Physical.Type, Data: r.Physical.Data})
+		b, err := json.Marshal(&receiver.Recv{Type: r.Physical.Type, Data: r.Physical.Data})
+		if err != nil {
+			return nil, status.Error(codes.InvalidArgument, "The field recv.data must be valid json.")
+		}
+		return b, nil
 	default:
 		return nil, status.Error(codes.InvalidArgument, "The field recv is required.")
 	}
